@@ -11,21 +11,21 @@ Local Open Scope Z_scope.
 Theorem C09_tie_score : forall (cfgs : bconfs) (b : bid),
   let c := conf_of cfgs b in
   score cfgs b =
-  builderbid_score (Z.of_N (b_value b))
+  builderbid_score (match bc_factor c with Some f => f | None => 0 end)
+                   (match bc_factor c with Some _ => true | None => false end)
                    (match bc_offset c with Some _ => true | None => false end)
                    (match bc_offset c with Some o => o | None => 0 end)
-                   (match bc_factor c with Some _ => true | None => false end)
-                   (match bc_factor c with Some f => f | None => 0 end).
+                   (Z.of_N (b_value b)).
 Proof. exact tie_score. Qed.
 Print Assumptions C09_tie_score.
 
-Theorem C09_tie_score_deadline : forall v ho o hf f,
-  builderbid_deadline_score v ho o hf f = builderbid_score v ho o hf f.
+Theorem C09_tie_score_deadline : forall f hf ho o v,
+  builderbid_deadline_score f hf ho o v = builderbid_score f hf ho o v.
 Proof. exact tie_score_deadline. Qed.
 Print Assumptions C09_tie_score_deadline.
 
 (* (value + offset) * factor / 100 with floor (Euclidean) division: -50/100 = -1, not 0 *)
 Example C09_tie_example :
-  builderbid_score 1000 true 50 true 90 = 945 /\ builderbid_score 1000 false 0 false 0 = 1000 /\
-  builderbid_score 10 true (-60) true 100 = -50 /\ builderbid_score 10 true (-60) true 1 = -1.
+  builderbid_score 90 true true 50 1000 = 945 /\ builderbid_score 0 false false 0 1000 = 1000 /\
+  builderbid_score 100 true true (-60) 10 = -50 /\ builderbid_score 1 true true (-60) 10 = -1.
 Proof. vm_compute. repeat split. Qed.
